@@ -220,7 +220,7 @@ SPEC = dict(
                 "that abstract protocol, generic quorums and f+1 of 2f+1; the comparison operators / quorum sizes of the decision closures are "
                 "re-extracted from paxos.rs into Lean on every run and the theorems are re-checked against them; the rest of the "
                 "decision functions is fingerprinted. The abstract protocol ASSUMES two proposer-side disciplines that no theorem or "
-                "executable tie connects to the code (see level_note); there is no Paxos execution tie at all."),
+                "executable tie connects to the code and which paxos.rs as written VIOLATES (findings F401 slot re-use under one ballot, F402 quorums counting responses instead of acceptors; see level_note) - so for the shipped Paxos example the property is refuted by these findings, not proved; there is no Paxos execution tie in this check."),
     level_note=("Modelled, not verified: the Hydro dataflow wiring of paxos.rs (batching, `sliced!` state, leader election timers) "
                 "is NOT executed - the Paxos simulator run is impossible here because paxos_core uses tokio timers that the "
                 "simulator runtime does not provide; Paxos is tied only by translation (operators, quorum sizes, ballot order) and "
@@ -229,11 +229,11 @@ SPEC = dict(
                 "(1) one value per (ballot, slot) (guard `forall v', msgs (p2a b s v') -> v' = v`): in paxos.rs the slot base for new "
                 "payloads is `p_max_slot + 1` whenever the recovered log is non-empty, and the p1b quorum snapshot that feeds "
                 "`p_max_slot` is present in every tick of a leadership, so `next_slot` may be ignored and slots re-used across ticks "
-                "under one ballot (candidate defect, under investigation, not reproduced end-to-end here); "
+                "under one ballot - REPRODUCED (finding F401, known_findings.d/F401.json, witness corpus/C40/f401_f402_witness: a second leader that recovered a non-empty log commits two different payloads at one slot under one ballot, in the hydro simulator on a copy of paxos.rs whose heartbeat timer is replaced by a scripted election trigger); "
                 "(2) a quorum is f+1 DISTINCT acceptors (`isQ Q`, `chosen`): hydro_std::quorum::collect_quorum* count Ok RESPONSES "
                 "per key (ballot / (slot, ballot)), the sender id is dropped, and p1a is re-broadcast with an unchanged ballot on "
-                "every election trigger, so one acceptor answering twice is counted twice (candidate defect, not reproduced "
-                "end-to-end here). `a_checkpoint = None` (no log garbage collection) is a further assumption; the replica layer "
+                "every election trigger, so one acceptor answering twice is counted twice - REPRODUCED (finding F402, same witness crate: with f = 1 a "
+                "proposer becomes leader on two answers of a single acceptor). Both findings are violations of the assumptions, i.e. the abstract theorem does NOT transfer to paxos.rs as written; no oracle in this check can emit their signatures (no Paxos execution tie). `a_checkpoint = None` (no log garbage collection) is a further assumption; the replica layer "
                 "(kv_replica: apply in slot order) is not modelled. "
                 "For Raft the wiring of `raft_server` is exercised only on sampled "
                 "simulator schedules; `cluster_size` is taken to be the real member count (raft.rs documents it 'must match'); "
@@ -245,7 +245,7 @@ SPEC = dict(
                   "Rust `sort_by` stability (std) modelled by a stable insertion sort"],
     assumptions=["fail-stop members, fixed cluster size (Raft: cluster_size = number of members), payloads are opaque values",
                  "Raft: theorems are about executions of the transcribed raft_step (diffed against the real function on sampled inputs); the raft_server wiring around it is exercised only on sampled simulator schedules",
-                 "Paxos: a proposer assigns at most one value to a (ballot, slot) pair (NOT established for paxos.rs)",
-                 "Paxos: a quorum of Ok replies comes from f+1 distinct acceptors, i.e. an acceptor answers a (ballot) / (slot, ballot) key at most once (NOT established for paxos.rs: collect_quorum counts responses)",
+                 "Paxos: a proposer assigns at most one value to a (ballot, slot) pair (VIOLATED by paxos.rs: finding F401)",
+                 "Paxos: a quorum of Ok replies comes from f+1 distinct acceptors, i.e. an acceptor answers a (ballot) / (slot, ballot) key at most once (VIOLATED by paxos.rs: collect_quorum counts responses, finding F402)",
                  "Paxos: no log garbage collection (a_checkpoint = None)"],
 )
